@@ -234,42 +234,48 @@ def rowTranslated (r : CovRow) : Bool :=
       r2.arch == r.arch && r2.name == c && (match r2.cov with | .translated _ => true | .translatedF _ => true | _ => false)
   | _ => false
 
-/-- the handlers that are NOT covered by translation and are not DS/FLAT memory code, by name -/
-def untranslatedNames : List (String × String × Cov) :=
-  [ -- float handlers the translator leaves alone (slices + `sort`, a `log.Panic` inside a helper)
-    ("gcn3", "runVMED3F32", .float), ("gcn3", "runVDIVFIXUPF64", .float), ("cdna3", "runVCmpClassF32VOP3a", .float),
-    ("cdna3", "runVMED3F32", .float), ("cdna3", "runVDIVFIXUPF64", .float),
-    -- a loop inside the lane loop (bit scans)
-    ("gcn3", "runBFREVB32", .innerLoop), ("cdna3", "runBFREVB32", .innerLoop), ("cdna3", "runVFFBHU32", .innerLoop),
-    -- slices and `sort.Ints`
-    ("gcn3", "runVMED3I32", .library), ("cdna3", "runVMED3I32", .library),
-    -- the documented cross-lane instruction
-    ("gcn3", "runVREADFIRSTLANEB32", .crossLane), ("cdna3", "runVREADFIRSTLANEB32", .crossLane),
-    -- no lane loop and no operand access
-    ("gcn3", "vop3aPreprocess", .noLaneCode), ("gcn3", "vop3aPostprocess", .noLaneCode), ("cdna3", "vop3aPreprocess", .noLaneCode),
-    ("cdna3", "vop3aPostprocess", .noLaneCode), ("cdna3", "runVCmpFU64", .noLaneCode) ]
+/-- a row of the `constant` class points at the `NoLaneHandler` with its name (handlers without lane loop and
+    operand access: `vop3aPreprocess/Postprocess`, CDNA3 `v_cmp_f_u64`; `no_lane_handlers_are_vexec` in
+    Props/C06Deep.lean) -/
+def rowConstant (r : CovRow) : Bool :=
+  match r.cov with
+  | .constant idx =>
+    (match Gen.Lane.noLaneHandlers[idx]? with
+     | some h => h.arch == r.arch && h.name == r.name
+     | none => false)
+  | _ => false
 
-/-- **Summary of the coverage** (tripwire: a handler that leaves or joins the untranslated groups changes it
+/-- the handlers that are NOT covered by translation and are not DS/FLAT memory code, by name: since the second
+    deepening only the documented cross-lane instruction (transcribed by hand: `goReadFirstLane`,
+    Props/C06Deep.lean) -/
+def untranslatedNames : List (String × String × Cov) :=
+  [ ("gcn3", "runVREADFIRSTLANEB32", .crossLane), ("cdna3", "runVREADFIRSTLANEB32", .crossLane) ]
+
+/-- **Summary of the coverage** (tripwire: a handler that leaves or joins the untranslated group changes it
     and must be looked at; new handlers that translate, and new DS/FLAT handlers, pass). Every vector handler
     record of both ALUs is exactly one of
     * covered by TRANSLATION of an integer lane body (`handler_is_vexec`; tied to the code by the `c06 body`
-      and `c06 gorun` correspondence) — or a wrapper that only selects between translated handlers by
-      instruction fields (`runVADDI32`);
+      and `c06 gorun` correspondence) — since the second deepening including bodies with an inner loop with
+      constant bounds (`v_bfrev_b32`, `v_ffbh_u32`: a `List.foldl`), three-element slices + `sort.Ints`
+      (`v_med3_i32`) — or a wrapper that only selects between translated handlers by instruction fields;
     * a float handler covered by translation of the loop skeleton / mask handling with an opaque float data
-      path (`handler_is_vexec` holds; body correspondence for those in `Gen.Lane.exactFloat`);
+      path (`handler_is_vexec` holds; body correspondence for those in `Gen.Lane.exactFloat`) — now including
+      `v_med3_f32` (`sort.Float64s`), `v_div_fixup_f64` (helper with a data-dependent `log.Panicf`, listed in
+      `Gen.Lane.partialBodies`), `v_cmp_class_f32_e64` (array literal + unrolled `range`);
+    * a handler without lane code, translated (`Gen.Lane.noLaneHandlers`);
     * a DS/FLAT memory handler or address helper (`C06Mem`: bodies translated, lane-uniform, load-only or
-      store-only proved), or the operand read wrapper `readF64`;
-    * one of the 17 handlers listed in `untranslatedNames` — these remain covered by the syntactic fit
-      (`all_vector_handlers_fit`) + the extensional per-lane composition test only (`v_readfirstlane_b32` being
-      the documented cross-lane exception). -/
+      store-only proved; loop-level refinement in Props/C06MemLoop.lean), or the operand read wrapper `readF64`;
+    * the documented cross-lane instruction `v_readfirstlane_b32` of `untranslatedNames` (hand-transcribed). -/
 theorem coverage_summary :
     (Gen.Lane.coverage.all fun r =>
-      rowTranslated r || r.cov == .memory || r.cov == .helper || (r.cov == .operandRead && r.name == "readF64") ||
+      rowTranslated r || rowConstant r || r.cov == .memory || r.cov == .helper || (r.cov == .operandRead && r.name == "readF64") ||
       untranslatedNames.contains (r.arch, r.name, r.cov)) = true ∧
     (untranslatedNames.all fun u => Gen.Lane.coverage.contains ⟨u.1, u.2.1, u.2.2⟩) = true ∧
     (Gen.Lane.exactFloat.all fun e => Gen.Lane.coverage.any fun r =>
       r.arch == e.1 && r.name == e.2 && (match r.cov with | .translatedF _ => true | _ => false)) = true := by
   decide +kernel
+
+example : (Gen.Lane.coverage.filter rowConstant).length ≥ 5 := by decide +kernel
 
 example : (Gen.Lane.coverage.filter rowTranslated).length ≥ 250 ∧ Gen.Lane.exactFloat.length ≥ 60 := by decide +kernel
 
@@ -286,19 +292,19 @@ def opcodeTranslated (d : C06Facts.Dispatch) : Bool :=
 def aluFormat (f : String) : Bool := ["vop1", "vop2", "vop3a", "vop3b", "vopc"].contains f
 
 /-- **Opcode view**: every VOP1/VOP2/VOP3a/VOP3b/VOPC opcode-switch entry of the two ALUs runs a translated
-    lane body (integer or float) — except the entries that run one of the handlers listed in
-    `untranslatedNames` (13 entries at the pinned tree: `v_readfirstlane_b32`, `v_bfrev_b32`, `v_ffbh_u32`,
-    `v_med3_f32/i32`, `v_div_fixup_f64`, `v_cmp_class_f32_e64`, `v_cmp_f_u64`). -/
+    lane body (integer or float) or a translated handler without lane code (`v_cmp_f_u64` of CDNA3) — except
+    the two entries of `v_readfirstlane_b32` (`untranslatedNames`). -/
 theorem translated_opcodes :
     ((Gen.dispatch.filter (fun d => aluFormat d.format)).all fun d =>
       opcodeTranslated d ||
       (match Gen.Lane.coverage[d.hidx]? with
-       | some r => r.arch == d.arch && r.name == d.handler && untranslatedNames.contains (r.arch, r.name, r.cov)
+       | some r => r.arch == d.arch && r.name == d.handler &&
+           (rowConstant r || untranslatedNames.contains (r.arch, r.name, r.cov))
        | none => false)) = true := by
   decide +kernel
 
 example : (Gen.dispatch.filter (fun d => aluFormat d.format && opcodeTranslated d)).length ≥ 250 ∧
-    (Gen.dispatch.filter (fun d => aluFormat d.format && !opcodeTranslated d)).length ≤ 20 := by decide +kernel
+    (Gen.dispatch.filter (fun d => aluFormat d.format && !opcodeTranslated d)).length ≤ 4 := by decide +kernel
 
 example : (Gen.dispatch.filter (fun d => d.handler == "runVADDI32" && opcodeTranslated d)).length ≥ 2 := by decide +kernel
 
